@@ -168,32 +168,13 @@ def known_trigger(m: S.Model, q: Query, info):
         cols, rows = grid_ranges(m, info["sel"])
         if cols[-1] - cols[0] + 1 != len(cols) or rows[-1] - rows[0] + 1 != len(rows):
             return "noncontiguous-selection"
-    for _name, kind, assoc, exp in m.data:
+    for _name, kind, _assoc, _exp in m.data:
         if kind != "text":
             continue
-        if m.cls in S.GRID_CLASSES:
-            if m.cls == "Grid2D" and not q.inv:
-                if not info["any"]:
-                    continue
-                cols, rows = grid_ranges(m, info["sel"])
-                if len(cols) * len(rows) < len(exp):  # values extracted, then blanked through the setter
-                    continue
-                return "text-data"
-            if info["miss"]:
-                continue
-            if m.cls == "Grid2D" and q.inv and not info["any"]:
-                continue
-            return "text-data"
-        if m.cls == "Points":
-            if info["miss"]:
-                continue
-            n_sel = sum(info["sel"])
-        else:
-            if not info["any"]:
-                continue
-            n_sel = sum(info["sel"]) if assoc == "VERTEX" else sum(info["kept"])
-        if n_sel == len(exp) or n_sel == 0:
-            return "text-data"
+        if m.cls in ("BlockModel", "Octree") and not info["miss"]:
+            return "text-data-on-grid"  # GridObject.copy multiplies the values by NaN
+        if m.cls == "Points" and not info["miss"] and not info["any"]:
+            return "text-data-empty-selection"  # zero-length text array cannot be written
     return None
 
 
@@ -434,7 +415,7 @@ def check_mask(ctx, m: S.Model, q: Query, info):
 class C13(Check):
     pid = "C13"
     level = "exploration"
-    budgets = {"quick": (380, 16), "thorough": (4800, 16)}
+    budgets = {"quick": (360, 16), "thorough": (4500, 16)}
     rule = (
         "A program = a scene of 1-3 objects (point cloud, curve, surface with arbitrary index tuples as cells, "
         "Grid2D any rotation/dip/negative sizes, BlockModel, Octree with explicit refinement, Drillhole; free, in "
@@ -461,6 +442,12 @@ class C13(Check):
         "Group.mask_by_extent (always None) is not examined; groups are checked through copy_from_extent",
         "vertex data of curves/surfaces are not examined through Data.mask_by_extent (statement is about cells)",
         "drillholes are selected by their collar; at most one depth data set",
+        "Data.copy_from_extent called on a data set by itself is not exercised (only through its parent object)",
+        "'connects the same coordinates' is compared per cell as a multiset of coordinates (vertex order inside a "
+        "cell is not demanded)",
+        "a copy that changes the values/geometry of its source is reported (later queries of a case rely on it)",
+        "open findings are guarded one at a time: a query that would run into one is skipped unless the program "
+        "sets allow_known (10 %), counted in excluded_by_finding",
     ]
 
     def strategy(self, tier):
